@@ -111,8 +111,15 @@ func prfStream(r *simctl.Rand) StreamSpec {
 // regular file or a pipe, possibly positioned behind an already consumed
 // header.
 func genCarrier(c *RunConfig, r *simctl.Rand, fast bool) {
-	kinds := []string{"bytes", "bytes", "file", "pipe", "bufio", "writerto", "fifo"}
+	kinds := []string{"bytes", "bytes", "file", "pipe", "bufio", "bufio", "writerto", "fifo", "func", "valuestruct", "seeker"}
 	c.Carrier = kinds[r.Intn(len(kinds))]
+	if c.Carrier == "func" || c.Carrier == "valuestruct" || c.Carrier == "seeker" {
+		// (wrappers of the simulated device keep the case's read sizes and EOF form)
+		return
+	}
+	if c.Carrier == "bufio" {
+		c.CarrierOffset = r.Intn(6) // (selects the buffer size)
+	}
 	if c.Carrier == "bytes" || c.Carrier == "file" {
 		c.CarrierOffset = []int{0, 1250, 2500, 4096, 125000, 1 + r.Intn(5000)}[r.Intn(6)]
 	}
@@ -535,7 +542,7 @@ func Plan(prop, tier string, seed uint64) []RunConfig {
 	case "C09":
 		// partial = data and a custom error in one Read; partialeof = the last
 		// data and io.EOF in one Read (iotest.DataErrReader, many devices)
-		kinds := []string{"eof", "ueof", "custom", "partial", "partialeof", "wrapeof", "temporary"}
+		kinds := []string{"eof", "ueof", "custom", "partial", "partialeof", "wrapeof", "temporary", "listerr"}
 		for _, w := range AllWorkflows {
 			if w == WSingle {
 				continue
@@ -605,6 +612,11 @@ func Plan(prop, tier string, seed uint64) []RunConfig {
 								Runners: RunnerSpec{Mode: "scripted", Seed: r.Uint64()}, ReadYield: ry}
 							if r.Intn(8) == 0 {
 								c.Prelude = detPrelude(w, r)
+							}
+							if r.Intn(4) == 0 {
+								// the failing device behind another dynamic type: a func
+								// adapter, a struct passed by value, a seekable device node
+								c.Carrier = []string{"func", "valuestruct", "seeker"}[r.Intn(3)]
 							}
 							out = append(out, c)
 						}
@@ -1005,6 +1017,8 @@ func planC14(prop string, thorough bool, r *simctl.Rand) []RunConfig {
 		} else if wi.SampleBytes == 2500 && r.Intn(4) == 0 {
 			// another detection of the same kind runs at the same time on a healthy device
 			c.Companion = []PreludeSpec{{Workflow: w, Stream: StreamSpec{Kind: "prf", Seed: r.Uint64()}}}
+		} else if r.Intn(6) == 0 {
+			c.Carrier = []string{"func", "valuestruct", "seeker"}[r.Intn(3)]
 		} else if wi.SampleBytes == 2500 && r.Intn(6) == 0 {
 			// the stuck device also glitches: a short burst of read errors, then it delivers
 			// (its stuck stream) again - still (false, non-nil error)
